@@ -8,10 +8,10 @@ Record upstream := {
   us_next : N;          (* id of the next child it creates *)
   us_idx : nat;         (* index of the next step *)
   us_ended : bool;
-  us_hlo : nat; us_hhi : option nat;
+  us_hlo : nat; us_hhi : option N;
 }.
 
-Definition mk_upstream (l : list upstep) (hlo : nat) (hhi : option nat) : upstream :=
+Definition mk_upstream (l : list upstep) (hlo : nat) (hhi : option N) : upstream :=
   {| us_steps := l; us_next := 1%N; us_idx := 0; us_ended := false; us_hlo := hlo; us_hhi := hhi |}.
 
 Inductive upres := UPItem (c : child) | UPPend | UPEnd | UPErr (t : tok).
@@ -42,9 +42,15 @@ Definition up_remaining (try : bool) (u : upstream) : nat :=
   if us_ended u then 0 else
   length (filter (fun s => match s with UItem _ => true | UErr => try | _ => false end) (us_steps u)).
 
-Definition up_hint (try : bool) (u : upstream) : nat * option nat :=
+(** [usize] arithmetic of the hints: [saturating_add] and [checked_add] on words of [wmax + 1] values *)
+Definition sat_add (wmax a b : N) : N := N.min (a + b)%N wmax.
+Definition chk_add (wmax a b : N) : option N := if N.leb (a + b)%N wmax then Some (a + b)%N else None.
+
+(** the scripted upstream reports an honest hint: lower bound = remaining - slack, upper bound =
+    remaining + slack (saturating: the harness's upstream computes it that way) *)
+Definition up_hint (wmax : N) (try : bool) (u : upstream) : N * option N :=
   let r := up_remaining try u in
-  (r - us_hlo u, match us_hhi u with Some k => Some (r + k) | None => None end).
+  (N.of_nat (r - us_hlo u), match us_hhi u with Some k => Some (sat_add wmax (N.of_nat r) k) | None => None end).
 
 Inductive queue := QU (f : fub) | QO (q : fob).
 
@@ -120,11 +126,15 @@ Definition adapter_poll (a : adapter) (t : nat) (w : world) : adapter * retv * w
       end
   end.
 
-Definition adapter_hint (a : adapter) : nat * option nat :=
-  let ql := q_len (ad_q a) in
+(** [size_hint] of the four buffered adapters: [lower.saturating_add(queue_len)] and
+    [upper.checked_add(queue_len)] in [usize] *)
+Definition wmaxN : N := (2 ^ N.of_nat (pW P) - 1)%N.
+
+Definition adapter_hint (a : adapter) : N * option N :=
+  let ql := N.of_nat (q_len (ad_q a)) in
   match ad_up a with
-  | Some u => let '(lo, hi) := up_hint (ad_try a) u in
-              (lo + ql, match hi with Some x => Some (x + ql) | None => None end)
+  | Some u => let '(lo, hi) := up_hint wmaxN (ad_try a) u in
+              (sat_add wmaxN lo ql, match hi with Some x => chk_add wmaxN x ql | None => None end)
   | None => (ql, Some ql)
   end.
 
